@@ -32,8 +32,10 @@ SPEC = [
     dict(fn="buf::buffer::Buffer::push", ensures=["a1.pos <= old(a1.pos)"], ensures_ok=["a1.pos + len(a2) == old(a1.pos)"],
          why="the buffer only grows; on success exactly the chunk was added"),
     dict(fn="buf::buffer::Buffer::push_u8", ensures=["a1.pos <= old(a1.pos)"], why="the buffer only grows"),
-    dict(fn="buf::buffer::Buffer::push_tag_len", ensures=["a1.pos <= old(a1.pos)"], why="the buffer only grows"),
-    dict(fn="buf::buffer::Buffer::push_tagged", ensures=["a1.pos <= old(a1.pos)"], why="the buffer only grows"),
+    dict(fn="buf::buffer::Buffer::push_tag_len", ensures=["a1.pos <= old(a1.pos)"], ensures_ok=["a1.pos + 2 <= old(a1.pos)"],
+         why="the buffer only grows; a header is at least the identifier and one length octet"),
+    dict(fn="buf::buffer::Buffer::push_tagged", ensures=["a1.pos <= old(a1.pos)"], ensures_ok=["a1.pos + len(a3) + 2 <= old(a1.pos)"],
+         why="the buffer only grows; on success the contents and a header of at least two octets were added - also for empty contents (`04 00`)"),
     dict(trait="ber::BerEncoder", method="push_ber", ensures=["a2.pos <= old(a2.pos)"],
          why="encoders only push: buf.len() - start never underflows"),
     dict(trait="auth::SnmpAuth", method="password_to_master", requires=["len(a2) >= 1"],
